@@ -559,7 +559,7 @@ Proof. apply trace_refines. apply rel_init. Qed.
 (* the race the Spec does not show: a session that has ended but whose notification has not been
    processed still occupies a slot, so an Accept can evict a running session although fewer than
    max sessions are running *)
-Lemma race_witness :
+Lemma stale_slot_witness :
   exists evs s o, run (init 2) evs = Some (s, o) /\ In (Closed 0) o /\ live_ids (sessions (trk s)) = [2].
 Proof.
   exists [Accept true; Accept true; PeerGone 1; Accept true; SessionEnded 1]. eexists. eexists.
